@@ -21,20 +21,31 @@
 //                    (name, dims, type, event dim); `stat_types`, `stat_dims_all`, `stat_event_dims` enumerate the
 //                    former, `data_types`, `data_dims_all` the latter, each in schema order (src/sampler.rs: all are
 //                    `*_names(math).into_iter().map(..)`).
-//   A-iter           facade of the std iterator protocol (R9.method renames): `iter / iter_mut / into_iter` yield the
-//                    elements in order, `zip` pairs the i-th elements up to the shorter length, `map(f).collect()`
-//                    applies f to every element in order (into a Vec, or into `Result<Vec>` stopping at the first Err),
-//                    `try_for_each(f)` applies f in order and stops at the first Err; a `&mut` element that is never
-//                    handed to the closure keeps its value.
+//   A-iter           facade of the std iterator protocol (R9.method renames, R10.foriter): `iter / iter_mut / into_iter`
+//                    yield the elements in order (iter_mut: mutable borrows whose final values are the final elements of
+//                    the vector), `zip` pairs the i-th elements up to the shorter length, `map(f).collect()` applies f to
+//                    every element in order (into a Vec, or into `Result<Vec>` stopping at the first Err),
+//                    `try_for_each(f)` applies f in order and stops at the first Err, `peekable().next_if(f)` / `next()`
+//                    consume the next item (iff f accepts it), `rev / skip / take` (offered for edits only); a `&mut`
+//                    element that is never handed out keeps its value (`vx_untouched`).
 //   A-hashmap        std HashMap<String, V>: `get(k)` finds the entry stored under k; `clone` is an equal map
 //   A-anyhow         `?` / `.context(..)` keep Ok as Ok and Err as Err; message text not modelled
-//   A-str-eq         `&str != &mut String`, `&String == &String`: comparison of the character sequences
+//   A-str-eq         `&str != &mut String`, `&&str == &mut String`, `&String == &String`: comparison of the character
+//                    sequences (axioms on vstd's PartialEqSpec, which leaves the reference impls unspecified)
 //   A-std-misc       `<[T]>::to_vec`, `Vec::clone`, `Option::copied`, `usize::checked_mul`, `Iterator::product`
 //                    (panics on overflow when overflow checks are on: stated precondition), `u64 as usize`
 //   A-nooverflow     draw_count + 1, num_tune + num_draws, shape products fit in usize (stated preconditions)
 // Call-site assumptions (stated as preconditions, see lemmas.rs): A-arrow-values (no DateTime64 / TimeDelta64 variable
 // or value reaches the Arrow backend: `panic!("... not supported in arrow storage")`), A-storable-order (the list
-// handed to record_sample enumerates the schema names in schema order: Storable::get_all vs Storable::names).
+// handed to record_sample follows the order of the schema names: Storable::get_all vs Storable::names; STRONG form =
+// the same list of names, WEAK form = an order-preserving sub-list: order_strong.rs / order_weak.rs), the declared
+// shape of scalar variables (scalar_shape_ok: `assert!(items.len() == 1)`).
+// Rewrites used (unit.json): R0, R1 (contracts, closure contracts, loop contracts, ghost code at anchors, fn attributes
+// `loop_isolation(false)`), R3.boolop (record_sample), R4.mutself (finalize_builders), R5 `panic: @noargs`, R7.impltrait
+// (new_trace), R9.method (iterator / string methods, see above), R10.foriter (+ snapshot; patched record_sample only),
+// R12.typemap `Box<dyn ArrayBuilder>` -> `DynBuilder`, R13.closurepat.  Nothing is lifted, nothing is dropped.
+// Macros that are NOT rewritten but shadowed by items of this file: `anyhow::anyhow!`, `anyhow::bail!`, `assert_eq!`;
+// the function-local `macro_rules! downcast_builder` of append_value is verified as it stands.
 use core::marker::PhantomData;
 use vstd::std_specs::cmp::PartialEqSpec;
 
